@@ -2042,6 +2042,18 @@ impl TypeChecker {
             ));
         }
 
+        // A unit can only be defined in terms of a quantity (not a string, boolean, date, …)
+        if let typed_ast::Statement::DefineDerivedUnit {
+            expr, type_scheme, ..
+        } = &elaborated_statement
+            && !matches!(type_scheme.unsafe_as_concrete(), Type::Dimension(_))
+        {
+            return Err(Box::new(TypeCheckError::ExpectedDimensionType(
+                expr.full_span(),
+                type_scheme.unsafe_as_concrete(),
+            )));
+        }
+
         // Make sure that the user-specified type parameter bounds are properly reflected:
         for (span, type_parameter, bound) in &self.registry.introduced_type_parameters {
             match bound {
